@@ -32,12 +32,14 @@ class Case:
         self.flags = list(flags)
         self.label = label
         self.seed = None        # schedule seed: random holding of threads at system-call entries
+        self.xattr = None       # {name: value}: user extended attributes of the source (a large one lives in a block of its own,
+                                # which st_blocks counts although it holds no file data)
         self.prealloc = None    # [(offset, length)]: regions reserved with fallocate and then written WITHOUT a sync, so that
                                 # the kernel still reports them as `unwritten` extents while read() already sees the data
 
     def key(self):
         return (self.size, tuple(self.data), self.driver, self.workers, self.bs, self.reflink, self.prior,
-                tuple(self.plan), tuple(self.flags), getattr(self, 'seed', None), tuple(self.prealloc or ()))
+                tuple(self.plan), tuple(self.flags), getattr(self, 'seed', None), tuple(self.prealloc or ()), tuple(sorted((self.xattr or {}).keys())))
 
     def describe(self):
         return dict(size=self.size, data=self.data if len(self.data) < 8 else "%d ranges" % len(self.data),
@@ -65,6 +67,14 @@ def materialise(case, d, idx):
             os.close(fd)          # no fsync
     else:
         fsutil.make_file(src, case.size, case.data, tag=idx + 1)
+    if case.xattr:
+        for a, v in case.xattr.items():
+            os.setxattr(src, a, v)
+        fd = os.open(src, os.O_RDONLY)
+        try:
+            os.fsync(fd)
+        finally:
+            os.close(fd)
     if case.prior != "absent":
         psize = {"shorter": max(0, case.size // 2), "longer": case.size * 2 + 4096 + 13, "same": case.size,
                  "longer_dense": case.size + 3 * 4096}[case.prior]
